@@ -142,6 +142,23 @@ def check_connectivity(label, m):
 
 
 def elements_for(m):
+    """wrapper combinations chosen by hand + EVERY exported element living on the mesh's reference cell (read from the working tree's export list)"""
+    base = _elements_by_hand(m)
+    from contracts import catalog
+    have = {type(e).__name__ for e in base}
+    rd = m.elem.refdom.__name__
+    for label, cls, args in catalog.reference_elements() + catalog.global_elements():
+        try:
+            e = cls(*args)
+        except Exception:
+            continue
+        if getattr(e, "refdom", None) is not None and e.refdom.__name__ == rd and cls.__name__ not in have:
+            have.add(cls.__name__)
+            base.append(e)
+    return base
+
+
+def _elements_by_hand(m):
     import skfem as fem
     n = type(m).__name__
     if n.startswith("MeshLine"):
